@@ -13,12 +13,14 @@
 (*             its statement) on the OBSERVED pre/post states; the          *)
 (*             environment is the one observed in the pre-state.            *)
 (*   STRICT_.. strict lane: the observed post-state differs from            *)
-(*             Apply(pre, env, event, args) of spec/Fees.tla.  The model    *)
-(*             with the named deviation L11 and the model without it are    *)
-(*             both accepted (the code is the one or the other); a step on  *)
-(*             which the code is seen to follow the DEVIATION and not the   *)
-(*             intended model is additionally reported as DEV_L11           *)
+(*             Apply(pre, env, event, args) of spec/Fees.tla (the model of  *)
+(*             the CURRENT tree: DEVIATIONS = {}).  The model with the      *)
+(*             proposed fix of lead L27 ("ACC") is accepted as well, so the *)
+(*             lane stays silent once that fix lands.  A step that matches  *)
+(*             only a named variant is reported as DEV_L11 / DEV_ACC        *)
 (*             (information only).                                          *)
+(*   C11_Halt  property lane of C11: a block phase (BeginBlock / EndBlock)  *)
+(*             panicked on the real app = the chain halts.                  *)
 (***************************************************************************)
 EXTENDS Fees, Json
 
@@ -27,7 +29,7 @@ Hdr   == Trace[1].cfg
 
 t_IDORD == Hdr.idord
 t_PREC  == "1000000000000000000"
-t_DEV   == {"L11"}
+t_DEV   == {}
 
 VARIABLES l, S, E
 vars == <<l, S, E>>
@@ -66,13 +68,17 @@ StepTags(pre, post, e, ev, a, ok) ==
   T(StakerPart(pre, post), "C17_StakerPart")
 
 StrictTags(pre, post, e, ev, a, panic) ==
-  LET rd == ApplyD(t_DEV, pre, e, ev, a)
-      ri == ApplyD({}, pre, e, ev, a)
-      md == SameSt(rd.st, post)
-      mi == SameSt(ri.st, post)
-  IN IF panic THEN T(rd.panic \/ ri.panic, "STRICT_panic_" \o ev)
-     ELSE T(md \/ mi, "STRICT_state_" \o ev) \cup T(~rd.panic \/ ~ri.panic, "STRICT_panic_" \o ev) \cup
-          (IF md /\ ~mi THEN {"DEV_L11"} ELSE {})
+  LET rc == ApplyD(t_DEV, pre, e, ev, a)            \* the current tree
+      ra == ApplyD({"ACC"}, pre, e, ev, a)         \* with the fix proposed for L27
+      rl == ApplyD({"L11"}, pre, e, ev, a)         \* the defect fixed in 311e836
+      mc == SameSt(rc.st, post)
+      ma == SameSt(ra.st, post)
+      ml == SameSt(rl.st, post)
+  IN IF panic THEN T(rc.panic, "STRICT_panic_" \o ev)
+     ELSE T(mc \/ ma, "STRICT_state_" \o ev) \cup T(~rc.panic \/ ~ra.panic, "STRICT_panic_" \o ev) \cup
+          (IF ml /\ ~mc THEN {"DEV_L11"} ELSE {}) \cup (IF ma /\ ~mc THEN {"DEV_ACC"} ELSE {})
+
+HaltTags(ev, panic) == IF panic /\ ev \in {"BeginBlock", "EndBlock"} THEN {"C11_Halt"} ELSE {}
 
 \* numbers attached to a finding so that the known-findings protocol can recognise the exact
 \* signature of a listed defect
@@ -102,7 +108,7 @@ Next ==
        LET post == StOf(line.st)
            a    == ArgsOf(line)
            tags == (IF line.panic THEN {} ELSE StateTags(post) \cup StepTags(S, post, E, line.ev, a, line.ok)) \cup
-                   StrictTags(S, post, E, line.ev, a, line.panic)
+                   StrictTags(S, post, E, line.ev, a, line.panic) \cup HaltTags(line.ev, line.panic)
        IN /\ S' = post /\ E' = EnvOf(line.st)
           /\ tags = {} \/ PrintT("TAG " \o ToJson([l |-> l, ev |-> line.ev, tags |-> tags, info |-> Info(S, post)]))
 
